@@ -1,3 +1,4 @@
+import re
 from typing import Any
 from typing import List
 from typing import Optional
@@ -44,7 +45,8 @@ class ViewSection(Micheline, prim='view', args_len=4):
         if code.prim in ('CREATE_CONTRACT', 'SET_DELEGATE', 'TRANSFER_TOKENS') and not lambda_:
             raise MichelsonRuntimeError('view', f'{code.prim} is not allowed in views')
 
-        lambda_ |= code.prim in ('LAMBDA', 'lambda')
+        # NOTE: instructions inside a PUSH value can only be the body of a lambda literal
+        lambda_ |= code.prim in ('LAMBDA', 'LAMBDA_REC', 'PUSH', 'lambda')
         for arg in getattr(code, 'args', ()):
             ViewSection.check_code(arg, lambda_)
 
@@ -60,8 +62,9 @@ class ViewSection(Micheline, prim='view', args_len=4):
             raise MichelsonRuntimeError('view', 'Expected view name as first argument', view_name)
         name = view_name.get_string()
         if len(name) >= 32:
-            # TODO: also check for denied symbols
             raise MichelsonRuntimeError('view', f'Too long view name {view_name}')
+        if not re.fullmatch(r'[a-zA-Z0-9_.%@]*', name):
+            raise MichelsonRuntimeError('view', f'Invalid character in view name {view_name}')
 
         # NOTE: Check for opcodes forbidden in views
         cls.check_code(args[3], lambda_=False)
